@@ -21,7 +21,11 @@ TRUSTED = [
     "thread program; instances: SQL-statement sequences / DbInv, lock_protects_data; mutual exclusion; invariance over all schedules), "
     "ConcBreach.v (Owicki-Gries outline of add_appointment || block connected: accepted_then_watched_or_gone), ConcLin.v (read-only "
     "threads; a thread only panics at its own sites; witnesses by vm_compute), ConcReg.v (any number of concurrent registrations are "
-    "linearizable), ConcPurge.v (Owicki-Gries outline of register || the gatekeeper's purge: an acknowledged registration survives)",
+    "linearizable), ConcPurge.v (Owicki-Gries outline of register || the gatekeeper's purge: an acknowledged registration survives), "
+    "ConcCoarse.v (every run_coarse execution is a run_sched execution; coarse configurations are settled), ConcMix.v / ConcRW.v / "
+    "ConcDisc.v (a reader against one arbitrary thread: reduction to mix runs over the other thread's solo states; instances register, "
+    "disconnect, add_appointment off the trigger path), ConcComm.v (commuting threads whose first actions decide the order: register || "
+    "disconnect)",
     "the tie of the thread programs to the code: hook H3 (teos/src/verif_sync.rs) in CONTROLLED mode — harness/src/bin/conc parks "
     "every thread in before_acquire and grants one lock request at a time, so a schedule (one thread index per lock "
     "acquisition) is replayed exactly on the real Gatekeeper/Watcher/Responder/Carrier/InternalAPI (harness/src/world.rs, "
